@@ -205,7 +205,14 @@ def run(model: Model, rep: Report) -> None:
     r5.check("forkin('Encoding','ToUnicode'):ifkinspec:subspec[k]=resolve1(spec[k])" in s6 and "subspec=dict_value(dfonts[0]).copy()" in s6, site(gf), gf.qualname, "Type0: the first descendant's dictionary (copied) inherits Encoding and ToUnicode", why="changed")
 
     # ---------------------------------------------------------------- R6
-    r6 = rep.rule("C06-R6", "BIND", "widths: Widths[i] belongs to code FirstChar + i; MissingWidth default; standard-14 metrics; Type3 scale from FontMatrix", 5)
+    r6 = rep.rule("C06-R6", "BIND", "widths: Widths[i] belongs to code FirstChar + i; MissingWidth default; standard-14 metrics; Type3 scale from FontMatrix", 6)
+    pf0 = model.func("pdfminer.pdffont.PDFFont.__init__")
+    wa = [n for n in walk_no_nested(pf0.node) if isinstance(n, (ast.Assign, ast.AnnAssign)) and unparse(n.targets[0] if isinstance(n, ast.Assign) else n.target) == "self.widths"]
+    if not wa:
+        raise AnchorMissing("PDFFont.__init__: assignment of self.widths not found")
+    for n in wa:
+        v = n.value
+        r6.check(isinstance(v, ast.Call) and (dotted(v.func) or "") == "resolve_all", site(pf0, n), pf0.qualname, f"{unparse(n)[:80]} : the width table is stored with every element resolved", why="a subclass (Type3) hands over the /Widths array as written: an element given as an indirect reference stays a PDFObjRef, is no number for char_width, and the glyph gets MissingWidth")
     t1 = model.func(F + "PDFType1Font.__init__")
     s7 = "".join(unparse(t1.node).split())
     r6.check("firstchar=int_value(spec.get('FirstChar',0))" in s7 and "widths={i+firstchar:resolve1(w)for(i,w)inenumerate(width_list)}" in s7.replace("fori,win", "for(i,w)in"), site(t1), t1.qualname, "width of code FirstChar + i is Widths[i]", why="changed")
